@@ -44,7 +44,7 @@ func raceScenario(ev *Evidence) ([]string, error) {
 	seen := map[string]bool{}
 	var viol []string
 	runs := 0
-	for _, sc := range [][2]string{{"0", "^TestVerifRace$"}, {"1", "^TestVerifRace$"}, {"0", "^TestVerifRaceState$"}, {"0", "^TestVerifRaceTimers$"}, {"1", "^TestVerifRaceTimers$"}, {"0", "^TestVerifRaceEvents$"}, {"0", "^TestVerifRaceConn$"}} {
+	for _, sc := range [][2]string{{"0", "^TestVerifRace$"}, {"1", "^TestVerifRace$"}, {"0", "^TestVerifRaceState$"}, {"0", "^TestVerifRaceTimers$"}, {"1", "^TestVerifRaceTimers$"}, {"0", "^TestVerifRaceEvents$"}, {"0", "^TestVerifRaceConn$"}, {"0", "^TestVerifRaceRelogon$"}} {
 		side := sc[0]
 		c := exec.Command(bin, "-test.run", sc[1], "-test.count=1", "-test.timeout=60s")
 		c.Dir = dir
@@ -107,7 +107,7 @@ func raceScenario(ev *Evidence) ([]string, error) {
 	}
 	ev.Coverage["race_detector_runs"] = runs
 	ev.Coverage["race_build_seconds"] = round3(buildS)
-	ev.Coverage["race_scenario"] = "TestVerifRace (harness/session/race_test.go): 3 application senders, a writer loop, the inbound dispatch goroutine (TestRequest, Heartbeat, ResendRequest; then 2.3 s of silence so that the silence timer expires), state queries, event registration, both real timer goroutines with HeartBtInt=1, Session.Stop; both roles. TestVerifRaceTimers: no application traffic, the heartbeat timer expires, ResendRequest for everything sent, the timers expire again, second ResendRequest; both roles. TestVerifRaceEvents: a slow logout-event handler is running on the inbound goroutine while the application registers handlers and calls Stop. TestVerifRaceConn: the whole stack over a loopback socket (Acceptor.ListenAndServe + session, Initiator.Serve + session, 1 s timers, senders and resend requests on both sides, Close on both sides while senders run)"
+	ev.Coverage["race_scenario"] = "TestVerifRace (harness/session/race_test.go): 3 application senders, a writer loop, the inbound dispatch goroutine (TestRequest, Heartbeat, ResendRequest; then 2.3 s of silence so that the silence timer expires), state queries, event registration, both real timer goroutines with HeartBtInt=1, Session.Stop; both roles. TestVerifRaceTimers: no application traffic, the heartbeat timer expires, ResendRequest for everything sent, the timers expire again, second ResendRequest; both roles. TestVerifRaceEvents: a slow logout-event handler is running on the inbound goroutine while the application registers handlers and calls Stop. TestVerifRaceConn: the whole stack over a loopback socket (Acceptor.ListenAndServe + session, Initiator.Serve + session, 1 s timers, senders and resend requests on both sides, Close on both sides while senders run). TestVerifRaceRelogon: application senders and state queries keep running while the peer logs out and on again four times over the same connection"
 	sort.Strings(viol)
 	return viol, nil
 }
